@@ -60,7 +60,7 @@ Init ==
 CAbort(c) == [c EXCEPT !.ph = "closed", !.up = FALSE, !.inbox = <<>>,
                        !.discs = IF c.up THEN @ + 1 ELSE @]
 CHandle(c, p) ==
-    IF c.ph # "up" THEN c                       \* read loops have stopped
+    IF c.ph \notin {"up", "closing0"} THEN c     \* read loops have stopped
     ELSE CASE p.t = "MSG"   -> [c EXCEPT !.recv = Append(@, p.n)]
            [] p.t = "PING"  -> [c EXCEPT !.q = Append(@, Ctl("PONG"))]
            [] p.t = "CLOSE" -> CAbort(c)
@@ -84,12 +84,23 @@ CSend == /\ C.up /\ C.sent < MaxMsg
 SSend == /\ S.up /\ S.sent < MaxMsg
          /\ S' = [S EXCEPT !.sent = @ + 1, !.q = Append(@, Msg(S.sent + 1))]
          /\ UNCHANGED <<C, get, post, c2s, s2c>>
-\* client.disconnect(): CLOSE goes out behind what is already queued, the event fires now
+\* client.disconnect(): CLOSE is queued behind what is already there (the state is still
+\* 'connected': "closing0"); then the state changes and the disconnect event fires (CDiscEvent)
+\* - the write loop may have run in between.  On websocket disconnect() then closes the socket:
+\* what the write loop had not sent by then is lost (CWsCloseDrop).
 \* (callable once connect() has returned, i.e. after the upgrade attempt)
-CDisconnect == /\ "client" \in AllowDisc /\ C.up /\ C.tr \in {"polling", "websocket"}
-               /\ C' = [C EXCEPT !.q = Append(@, Ctl("CLOSE")), !.up = FALSE, !.discs = @ + 1,
-                                 !.ph = "closing", !.inbox = <<>>]
+CDisconnect == /\ "client" \in AllowDisc /\ C.up /\ C.ph = "up" /\ C.tr \in {"polling", "websocket"}
+               /\ C' = [C EXCEPT !.q = Append(@, Ctl("CLOSE")), !.ph = "closing0"]
                /\ UNCHANGED <<S, get, post, c2s, s2c>>
+CDiscEvent == /\ C.ph = "closing0"
+              /\ C' = [C EXCEPT !.up = FALSE, !.discs = @ + 1, !.ph = "closing", !.inbox = <<>>]
+              /\ UNCHANGED <<S, get, post, c2s, s2c>>
+CFinish == /\ C.ph = "closing" /\ C.q = <<>> /\ post.st = "none"
+           /\ C' = [C EXCEPT !.ph = "closed"]
+           /\ UNCHANGED <<S, get, post, c2s, s2c>>
+CWsCloseDrop == /\ C.ph = "closing" /\ C.tr = "websocket" /\ C.q # <<>>
+                /\ C' = [C EXCEPT !.q = <<>>, !.ph = "closed"]
+                /\ UNCHANGED <<S, get, post, c2s, s2c>>
 SDisconnect == /\ "server" \in AllowDisc /\ S.up /\ get # [st |-> "req", kind |-> "opened"]
                /\ S' = SClose(S, FALSE)
                /\ UNCHANGED <<C, get, post, c2s, s2c>>
@@ -177,7 +188,7 @@ CProbeFail == /\ C.ph = "up" /\ C.tr = "probing" /\ S.ph = "closed" /\ s2c = <<>
 
 (* ---- polling transport ---- *)
 CPolling == C.tr = "polling" /\ C.inbox = <<>>
-CPollReq == /\ C.ph = "up" /\ CPolling /\ get = None
+CPollReq == /\ C.ph \in {"up", "closing0"} /\ CPolling /\ get = None
             /\ get' = [st |-> "req", kind |-> "poll"]
             /\ UNCHANGED <<C, S, post, c2s, s2c>>
 SPollAnswer ==
@@ -191,12 +202,12 @@ SPollAnswer ==
     /\ UNCHANGED <<C, post, c2s, s2c>>
 CPollRecv == /\ get.st = "resp" /\ C.ph # "opening"
              /\ get' = None
-             /\ IF C.ph # "up" THEN UNCHANGED C
+             /\ IF C.ph \notin {"up", "closing0"} THEN UNCHANGED C
                 ELSE IF get.code # 200 \/ Len(get.body) > CLimit THEN C' = CAbort(C)
                 ELSE C' = [C EXCEPT !.inbox = get.body]
              /\ UNCHANGED <<S, post, c2s, s2c>>
 \* write loop: up to CBatch queued packets in one POST; one POST at a time
-CPost == /\ C.ph \in {"up", "closing"} /\ C.tr = "polling" /\ post = None /\ C.q # <<>>
+CPost == /\ C.ph \in {"up", "closing0", "closing"} /\ C.tr = "polling" /\ post = None /\ C.q # <<>>
          /\ post' = [st |-> "req", body |-> Take(C.q, CBatch)]
          /\ C' = [C EXCEPT !.q = Drop(@, CBatch)]
          /\ UNCHANGED <<S, get, c2s, s2c>>
@@ -212,14 +223,14 @@ SPostDone == /\ post.st = "proc" /\ S.inbox = <<>>
              /\ UNCHANGED <<C, S, get, c2s, s2c>>
 CPostDone == /\ post.st = "resp"
              /\ post' = None
-             /\ C' = IF post.code # 200 /\ C.ph = "up" THEN CAbort(C)
+             /\ C' = IF post.code # 200 /\ C.ph \in {"up", "closing0"} THEN CAbort(C)
                      ELSE IF C.ph = "closing" /\ (C.q = <<>> \/ ~Flush)
                      THEN [C EXCEPT !.ph = "closed", !.q = <<>>]
                      ELSE C
              /\ UNCHANGED <<S, get, c2s, s2c>>
 
 (* ---- websocket transport ---- *)
-CWsWrite == /\ C.ph \in {"up", "closing"} /\ C.tr = "websocket" /\ C.q # <<>>
+CWsWrite == /\ C.ph \in {"up", "closing0", "closing"} /\ C.tr = "websocket" /\ C.q # <<>>
             /\ c2s' = Append(c2s, Head(C.q))
             /\ C' = LET c1 == [C EXCEPT !.q = Tail(@)]
                     IN IF c1.ph = "closing" /\ c1.q = <<>> THEN [c1 EXCEPT !.ph = "closed"] ELSE c1
@@ -237,7 +248,7 @@ CWsRecv == /\ C.tr = "websocket" /\ C.ph # "opening" /\ s2c # <<>> /\ C.inbox = 
            /\ C' = CHandle(C, Head(s2c))
            /\ UNCHANGED <<S, get, post, c2s>>
 \* each side notices the websocket closing under it once everything sent before was read
-CWsGone == /\ C.ph = "up" /\ C.tr = "websocket" /\ S.ph = "closed" /\ s2c = <<>>
+CWsGone == /\ C.ph \in {"up", "closing0"} /\ C.tr = "websocket" /\ S.ph = "closed" /\ s2c = <<>>
            /\ (S.q = <<>> \/ S.tr # "websocket")
            /\ C' = CAbort(C)
            /\ UNCHANGED <<S, get, post, c2s, s2c>>
@@ -250,6 +261,7 @@ Internal ==
     \/ CProbe \/ SProbe \/ CProbed \/ SUpgraded \/ CProbeFail
     \/ CPollReq \/ SPollAnswer \/ CPollRecv \/ CPost \/ SPostRecv \/ SPostDone \/ CPostDone
     \/ CWsWrite \/ SWsRecv \/ SWsWrite \/ CWsRecv \/ CWsGone \/ SWsGone
+    \/ CDiscEvent \/ CFinish \/ CWsCloseDrop
 Env == COpenReq \/ CWsOpenReq \/ CSend \/ SSend \/ CDisconnect \/ SDisconnect \/ SPing
 Next == Internal \/ Env
 Spec == Init /\ [][Next]_vars
@@ -265,7 +277,7 @@ E2E == INSTANCE EioE2E WITH csent <- C.sent, ssent <- S.sent, crecv <- Last(C.re
 ImplementsE2E == E2E!Spec
 
 TypeOK ==
-    /\ C.ph \in {"idle", "opening", "up", "closing", "closed"}
+    /\ C.ph \in {"idle", "opening", "up", "closing0", "closing", "closed"}
     /\ C.tr \in {"polling", "probe0", "probing", "websocket"}
     /\ S.ph \in {"none", "up", "closed"}
     /\ S.tr \in {"polling", "upging", "websocket"}
